@@ -277,6 +277,68 @@ Section Prog.
     terminal p = true -> mem_of (exec p m) = m /\ trace_of (exec p m) = [].
   Proof. destruct p; simpl; intros; try discriminate; auto. Qed.
 
+
+  (** Footprints compose along [bind]; [results p Q]: every result [p] can
+      return (whatever it reads) satisfies [Q]. *)
+  Fixpoint results {X} (p : prog X) (Q : X -> Prop) : Prop :=
+    match p with
+    | Ret x => Q x
+    | Fail => True
+    | Rd a k => forall v, results (k v) Q
+    | Wr a v k => results k Q
+    end.
+  Lemma fp_bind {X Y} (R W : A -> bool) (p : prog X) (f : X -> prog Y) (Q : X -> Prop) :
+    fp R W p -> results p Q -> (forall x, Q x -> fp R W (f x)) -> fp R W (bind p f).
+  Proof.
+    induction p; simpl; intros F Rs Hf; auto.
+    - destruct F as [Ra F]. split; auto.
+    - destruct F as [Wa F]. split; auto.
+  Qed.
+  Lemma results_bind {X Y} (p : prog X) (f : X -> prog Y) (Q : X -> Prop) (Q' : Y -> Prop) :
+    results p Q -> (forall x, Q x -> results (f x) Q') -> results (bind p f) Q'.
+  Proof. induction p; simpl; intros Rs Hf; auto. Qed.
+  Lemma results_true {X} (p : prog X) : results p (fun _ => True).
+  Proof. induction p; simpl; auto. Qed.
+
+
+  (** Footprint along ONE execution: the accesses the thread performs when it
+      runs from memory [m] (values read are those of [m] as updated by its own
+      writes). *)
+  Fixpoint fp_on {X} (R W : A -> bool) (p : prog X) (m : mem) : Prop :=
+    match p with
+    | Ret _ => True
+    | Fail => True
+    | Rd a k => R a = true /\ fp_on R W (k (m a)) m
+    | Wr a v k => W a = true /\ fp_on R W k (upd m a v)
+    end.
+  Lemma fp_fp_on {X} (R W : A -> bool) (p : prog X) : fp R W p -> forall m, fp_on R W p m.
+  Proof. induction p; simpl; intros F m; auto; destruct F; split; auto. Qed.
+  Lemma fp_on_bind {X Y} (R W : A -> bool) (p : prog X) (f : X -> prog Y) : forall m,
+    fp_on R W p m ->
+    (forall x, res_of (exec p m) = Some x -> fp_on R W (f x) (mem_of (exec p m))) ->
+    fp_on R W (bind p f) m.
+  Proof.
+    induction p; simpl; intros m F Hf.
+    - apply Hf. reflexivity.
+    - exact I.
+    - destruct F as [Ra F]. split; auto. apply H; auto.
+      intros x Hx. specialize (Hf x). destruct (exec (k (m a)) m) as [[r m'] t]. apply Hf. exact Hx.
+    - destruct F as [Wa F]. split; auto. apply IHp; auto.
+      intros x Hx. specialize (Hf x). destruct (exec p (upd m a v)) as [[r m'] t]. apply Hf. exact Hx.
+  Qed.
+  Lemma exec_trace_in_fp_on {X} (R W : A -> bool) (p : prog X) : forall m,
+    fp_on R W p m -> forall e, In e (trace_of (exec p m)) ->
+    if is_write e then W (ev_addr e) = true else R (ev_addr e) = true.
+  Proof.
+    induction p; simpl; intros m F e Hin; try contradiction.
+    - destruct F as [Ra F]. specialize (H (m a) m F e).
+      destruct (exec (k (m a)) m) as [[r m'] t]. unfold trace_of in *; simpl in *.
+      destruct Hin as [<- | Hin]; [simpl; auto | apply H; exact Hin].
+    - destruct F as [Wa F]. specialize (IHp (upd m a v) F e).
+      destruct (exec p (upd m a v)) as [[r m'] t]. unfold trace_of in *; simpl in *.
+      destruct Hin as [<- | Hin]; [simpl; auto | apply IHp; exact Hin].
+  Qed.
+
   (* ------------------------------------------------------------------ *)
   (** ** Commutation *)
   Section Commute.
